@@ -893,7 +893,10 @@ def evaluate(ctx, deep):
     rng = ctx.rng
     selfcheck(ctx)
     nplace = 6 if deep else 4
-    for spec, data in object_cases(rng, deep):
+    cases = []
+    for _ in range(3 if deep else 2):            # independent passes over every class/option with fresh random data
+        cases.extend(object_cases(rng, deep))
+    for spec, data in cases:
         pdata = prepared_data(spec, data)
         w, resetful = width_hint(spec, data)
         static_kind = spec["kind"] in ("dense", "sparse", "fn", "mixed")
